@@ -1,69 +1,86 @@
 package c13
 
 import (
+	"database/sql/driver"
 	"fmt"
 	"math/rand"
 	"testing"
 )
 
-// validateBinlogModel generates rows of every zoo table, writes their stored
-// column values into a real binlog file (binlogenc_test.go), has the pinned
-// go-mysql parser decode it, and compares every decoded value - dynamic type
-// and value - with the form the model (encode, profile pBinlog) predicts.
-// The decoded rows are also pushed through BuildStruct and compared with the
-// original struct, so the whole chain value -> MySQL row image -> go-mysql ->
-// thunder is exercised with nothing modelled in between.
-func validateBinlogModel(z *zoo, seed int64, rowsPerTable int) (checked int, err error) {
+// genHarnessValue draws one stored SQL value together with a MySQL column
+// type able to hold it. Nothing here comes from thunder: the values are made
+// by the harness' own generators, so a disagreement found by
+// validateBinlogModel can only be a fault of the harness (model or binlog
+// writer), never of the code under test.
+func genHarnessValue(r *rand.Rand) (driver.Value, colChoice) {
+	switch r.Intn(9) {
+	case 0:
+		return nil, colChoice{}
+	case 1, 2:
+		bits := []int{8, 16, 32, 64}[r.Intn(4)]
+		return genInt(r, bits), colChoice{intBits: bits, unsigned: r.Intn(2) == 0}
+	case 3:
+		return r.Intn(2) == 0, colChoice{}
+	case 4:
+		if r.Intn(2) == 0 {
+			return float64(genFloat32(r)), colChoice{float32c: true}
+		}
+		return genFloat64(r), colChoice{}
+	case 5:
+		return genString(r), colChoice{lob: r.Intn(2) == 0}
+	case 6, 7:
+		return genBytes(r), colChoice{lob: r.Intn(2) == 0, jsonNorm: r.Intn(4) == 0}
+	default:
+		whole := r.Intn(2) == 0
+		t := genTime(r, whole)
+		return t, colChoice{dt6: !whole || r.Intn(2) == 0}
+	}
+}
+
+// validateBinlogModel writes harness-made SQL values into a real binlog file
+// (binlogenc_test.go), has the pinned go-mysql parser decode it, and compares
+// every decoded value - dynamic type and value - with the form the model
+// (encode, profile pBinlog) predicts for that value and column type.
+func validateBinlogModel(seed int64, rows int) (checked int, err error) {
 	w := newBinlogWriter()
 	type expect struct {
-		ti      *tableInfo
-		x       interface{}
-		vals    []interface{}
+		vals    []driver.Value
 		choices []colChoice
 	}
 	var exp []expect
-	for t, ti := range z.tables {
-		for j := 0; j < rowsPerTable; j++ {
-			r := rand.New(rand.NewSource(seed*1000003 + int64(t)*1009 + int64(j)))
-			x, gerr := ti.genRow(r, r.Intn(2) == 0)
-			if gerr != nil {
-				return checked, gerr
+	for j := 0; j < rows; j++ {
+		r := rand.New(rand.NewSource(seed*1000003 + int64(j)))
+		n := 1 + r.Intn(24)
+		e := expect{vals: make([]driver.Value, n), choices: make([]colChoice, n)}
+		cols := make([]binlogCol, n)
+		for k := 0; k < n; k++ {
+			e.vals[k], e.choices[k] = genHarnessValue(r)
+			c, cerr := binlogColumn(e.vals[k], e.choices[k])
+			if cerr != nil {
+				return checked, cerr
 			}
-			vals, uerr := z.schema.UnbuildStruct(ti.name, x.Interface())
-			if uerr != nil {
-				return checked, fmt.Errorf("UnbuildStruct(%s): %v", ti.name, uerr)
-			}
-			cols := make([]binlogCol, len(vals))
-			choices := make([]colChoice, len(vals))
-			for k := range vals {
-				choices[k] = chooseCol(r, ti.specs[k], vals[k])
-				c, cerr := binlogColumn(vals[k], choices[k])
-				if cerr != nil {
-					return checked, cerr
-				}
-				cols[k] = c
-			}
-			w.writeRow(uint64(100+t), verifDatabase, ti.name, cols)
-			exp = append(exp, expect{ti, x.Interface(), vals, choices})
+			cols[k] = c
 		}
+		w.writeRow(uint64(100+j%7), verifDatabase, fmt.Sprintf("t%d", j%7), cols)
+		exp = append(exp, e)
 	}
-	rows, perr := parseBinlog(w.buf.Bytes())
+	decoded, perr := parseBinlog(w.buf.Bytes())
 	if perr != nil {
 		return checked, fmt.Errorf("go-mysql failed to parse the generated binlog: %v", perr)
 	}
-	if len(rows) != len(exp) {
-		return checked, fmt.Errorf("go-mysql decoded %d rows, %d written", len(rows), len(exp))
+	if len(decoded) != len(exp) {
+		return checked, fmt.Errorf("go-mysql decoded %d rows, %d written", len(decoded), len(exp))
 	}
 	for n, e := range exp {
-		row := rows[n]
+		row := decoded[n]
 		if len(row) != len(e.vals) {
-			return checked, fmt.Errorf("%s: decoded row has %d columns, want %d", e.ti.name, len(row), len(e.vals))
+			return checked, fmt.Errorf("row %d: decoded row has %d columns, want %d", n, len(row), len(e.vals))
 		}
 		for k := range e.vals {
 			want := encode(e.vals[k], e.choices[k], pBinlog)
 			if !sameForm(want, row[k]) {
-				return checked, fmt.Errorf("%s.%s (column type %q): model predicts %s, go-mysql decoded %s", e.ti.name, e.ti.specs[k].name,
-					e.choices[k].String(), show(want), show(row[k]))
+				return checked, fmt.Errorf("row %d column %d (stored %s, column type %q): model predicts %s, go-mysql decoded %s", n, k,
+					show(e.vals[k]), e.choices[k].String(), show(want), show(row[k]))
 			}
 			checked++
 		}
@@ -74,12 +91,8 @@ func validateBinlogModel(z *zoo, seed int64, rowsPerTable int) (checked int, err
 // TestModelAgainstRealDecoders pins the binlog forms of forms_test.go to the
 // real decoder of the pinned go-mysql.
 func TestModelAgainstRealDecoders(t *testing.T) {
-	z, err := buildZoo()
-	if err != nil {
-		t.Fatal(err)
-	}
 	for seed := int64(1); seed <= 5; seed++ {
-		n, err := validateBinlogModel(z, seed, 200)
+		n, err := validateBinlogModel(seed, 2000)
 		if err != nil {
 			t.Fatalf("seed %d: %v", seed, err)
 		}
